@@ -142,8 +142,9 @@ Print Assumptions C15_example_history_nonvacuous.
 From Coq Require Import String.
 From NL Require Import Life.ImpSyntax Gen.ImpSkeleton Life.ImpTie.
 
-(** every machine trigger (run, reset, aopen, aclose) of every method of Imp and of Nextline,
-    run_session / run_continue_and_wait included, happens while the ONE lock is held *)
+(** every machine trigger ISSUED BY a method of Imp or of Nextline (run, reset, aopen, aclose;
+    run_session / run_continue_and_wait included) happens while the ONE lock is held; the run task's
+    own `finish` trigger (fsm/callback.py) is outside the lock by design and not covered here *)
 Theorem C15_tie_lock_discipline : forall ob m, In m (names ob) -> forall st cl o,
   let x := exec ob m st cl o in
   res_of x <> RBad /\ lock_ok false (trace_of x) = true /\ lk_held (cfg_of x) = false.
@@ -177,8 +178,32 @@ Theorem C15_tie_other_methods_inert : forall m, In m (names ONextline) -> mem m 
   forall st cl o, forallb inert_ev (trace_of (exec ONextline m st cl o)) = true.
 Proof. exact other_methods_inert. Qed.
 
+(** per-call refinement against Model.do_call / do_step (Life/ImpTie.v section 5): on seven
+    representative states, every execution (every oracle) of start / run / run_session / reset /
+    close has the model's observations, or leaves them at a decision the model takes the other way,
+    or at an environment failure; never anything else; the model's behaviour is one of them *)
+Theorem C15_tie_call_refinement : forall s c m, In s ref_states -> In c ref_calls -> In m (nl_methods_of c) ->
+  (forall o, let x := exec ONextline m (nl_started s) (nl_closed s) o in
+     verdict_of s c x <> VMismatch /\ (verdict_of s c x = VEqual -> end_agrees s c x = true)) /\
+  (exists o, verdict_of s c (exec ONextline m (nl_started s) (nl_closed s) o) = VEqual).
+Proof. exact call_refinement. Qed.
+
+Theorem C15_tie_ref_states_are :
+  map st_fsm ref_states = [Created; Initialized; Running; Finished; Finished; Initialized; Closed] /\
+  map runt ref_states = [None; None; Some RT_WaitChild; Some RT_G_fin; None; None; None] /\
+  forallb (fun s => match holder s, find_task (tasks s) 5 with None, None => true | _, _ => false end) ref_states = true.
+Proof. exact ref_states_are. Qed.
+
+(** the `finally` of run_session is reached from every await of its body *)
+Theorem C15_tie_run_session_finally_reached : forall m, In m session_names -> forall st cl o,
+  wait_after_yield false (trace_of (exec ONextline m st cl o)) = true.
+Proof. exact run_session_finally_reached. Qed.
+
 Print Assumptions C15_tie_lock_discipline.
 Print Assumptions C15_tie_lock_set.
 Print Assumptions C15_tie_call_trigger.
 Print Assumptions C15_tie_only_through_imp.
 Print Assumptions C15_tie_other_methods_inert.
+Print Assumptions C15_tie_call_refinement.
+Print Assumptions C15_tie_ref_states_are.
+Print Assumptions C15_tie_run_session_finally_reached.
